@@ -13,7 +13,7 @@ def GoodEnv (ds : List Def) (env : List OType) : Prop :=
 
 theorem define_shape {env : List OType} {d : Def} {t : OType} (h : define env d = .ok t) :
     ∃ l : Level, l.id = env.length ∧ t = l :: parentOf env d := by
-  obtain ⟨-, -, attrs, -, -, -, ht⟩ := define_parts h
+  obtain ⟨-, -, attrs, -, -, -, -, ht⟩ := define_parts h
   exact ⟨_, rfl, ht⟩
 
 theorem defineAll_good {env0 env : List OType} {ds0 ds : List Def} (h0 : GoodEnv ds0 env0)
@@ -62,7 +62,7 @@ theorem tyEq_head_id {l l' : Level} {r r' : OType} (h : tyEq (l :: r) (l' :: r')
   rcases h with h | h
   · rw [(List.cons.inj h).1]
   · simp only [tyEqDeep, Bool.and_eq_true, beq_iff_eq] at h
-    exact h.1.1.1.1.1.1
+    exact h.1.1.1.1.1.1.1
 
 theorem good_head {ds : List Def} {env : List OType} (hg : GoodEnv ds env) {j : Nat} {tj : OType}
     (hj : env[j]? = some tj) : ∃ l r, tj = l :: r ∧ l.id = j := by
